@@ -65,6 +65,48 @@ def subclass_arrays(np):
         yield np.matrix([[0.5]], dtype="<f8")
 
 
+class TaggedArray(object):
+    """placeholder, replaced by a real ndarray subclass in stateful_subclass_arrays (numpy is imported lazily in this harness)"""
+
+
+def stateful_subclass_arrays(np):
+    """ndarray subclasses whose state is more than (dtype, shape, bytes): masked arrays, a user subclass with an attribute."""
+    global TaggedArray
+
+    class TaggedArray(np.ndarray):  # noqa: F811
+        def __new__(cls, data, tag=None):
+            obj = np.asarray(data).view(cls)
+            obj.tag = tag
+            return obj
+
+        def __array_finalize__(self, obj):
+            self.tag = getattr(obj, "tag", None)
+
+        def __reduce__(self):
+            f, args, state = super().__reduce__()
+            return f, args, (state, self.tag)
+
+        def __setstate__(self, state):
+            super().__setstate__(state[0])
+            self.tag = state[1]
+    TaggedArray.__module__ = "__main__"
+    TaggedArray.__qualname__ = "TaggedArray"
+    import __main__
+    __main__.TaggedArray = TaggedArray
+    yield "masked", np.ma.masked_array(np.arange(6, dtype="<i4").reshape(2, 3), mask=[[0, 1, 0], [1, 0, 0]], fill_value=-7)
+    yield "masked-float", np.ma.masked_array(np.arange(5, dtype="<f8"), mask=[1, 0, 0, 0, 1])
+    yield "tagged", TaggedArray(np.arange(4, dtype="<u2"), tag={"unit": "m"})
+
+
+def same_stateful(np, a, b):
+    if type(a) is not type(b) or a.dtype != b.dtype or a.shape != b.shape:
+        return False
+    if isinstance(a, np.ma.MaskedArray):
+        return (np.ma.getmaskarray(a).tobytes() == np.ma.getmaskarray(b).tobytes() and a.fill_value == b.fill_value
+                and np.asarray(a.data).tobytes() == np.asarray(b.data).tobytes())
+    return np.asarray(a).tobytes() == np.asarray(b).tobytes() and getattr(a, "tag", None) == getattr(b, "tag", None)
+
+
 def main(budget):
     import numpy as np
     import joblib
@@ -75,6 +117,18 @@ def main(budget):
     root = tempfile.mkdtemp(prefix="pyvc_c19_")
     comps = [0, ("zlib", 3), ("gzip", 1), ("bz2", 3), ("lzma", 1), ("xz", 1)] if budget == "large" else [0, ("zlib", 3), ("xz", 1)]
     try:
+        # subclasses with state of their own (mask, fill value, attributes): "any ... subclass ... come back identical"
+        for label, a in stateful_subclass_arrays(np):
+            for comp in comps:
+                for value, name in ((a, "alone"), ({"k": [a, "s"]}, "nested")):
+                    cases += 1
+                    path = os.path.join(root, "s.pkl")
+                    joblib.dump(value, path, compress=comp)
+                    got = joblib.load(path)
+                    g = got if name == "alone" else got["k"][0]
+                    if not same_stateful(np, a, g):
+                        return dict(violation=True, cases=cases, what="round trip changed an ndarray subclass with state of its own (%s, %s): %r -> %r" % (label, name, a, g),
+                                    witness=dict(subclass=type(a).__name__, compress=repr(comp)))
         for a in itertools.chain(arrays(np, rnd), subclass_arrays(np)):
             for comp in comps:
                 cases += 1
